@@ -53,4 +53,52 @@ def generate(repo):
     fn = find_func(tree, 'truhlar_calendarize', path)
     months = literal(find_assign(fn, 'valid_months', path), path)
     out.append('Definition truhlar_months : list string := %s.' % coq_list(coq_string(m) for m in months))
+    # ---- AutoAux / AutoABS tables and thresholds
+    from fractions import Fraction
+    from decimal import Decimal
+
+    def qlit(v):
+        f = Fraction(Decimal(repr(v)))
+        return '(%s, %s)' % (coq_z(f.numerator), coq_z(f.denominator))
+
+    def thresholds(fn, var):
+        """`var = a` followed by `if Z > t: var = b` ... -> (initial, [(t, b)])"""
+        init, steps = None, []
+        for st in fn.body[0].body if False else ast.walk(fn):
+            pass
+        for st in ast.walk(fn):
+            if isinstance(st, ast.Assign) and len(st.targets) == 1 and isinstance(st.targets[0], ast.Name) and st.targets[0].id == var \
+                    and isinstance(st.value, ast.Constant) and init is None:
+                init = st.value.value
+            if isinstance(st, ast.If) and isinstance(st.test, ast.Compare) and isinstance(st.test.left, ast.Name) and st.test.left.id == 'Z' \
+                    and isinstance(st.test.ops[0], ast.Gt) and len(st.body) == 1 and isinstance(st.body[0], ast.Assign) \
+                    and isinstance(st.body[0].targets[0], ast.Name) and st.body[0].targets[0].id == var:
+                steps.append((literal(st.test.comparators[0], path), literal(st.body[0].value, path)))
+        if init is None or not steps:
+            raise TranslateError('%s: thresholds of %s in %s not found' % (path, var, fn.name))
+        return init, steps
+
+    def find_local(fn, name):
+        for st in ast.walk(fn):
+            if isinstance(st, ast.Assign) and len(st.targets) == 1 and isinstance(st.targets[0], ast.Name) and st.targets[0].id == name:
+                return literal(st.value, path)
+        raise TranslateError('%s: %s not found in %s' % (path, name, fn.name))
+
+    fa = find_func(tree, 'autoaux_basis', path)
+    out.append('Definition autoaux_flaux : list (Z * Z) := %s.' % coq_list(qlit(v) for v in find_local(fa, 'flaux')))
+    out.append('Definition autoaux_blaux_big : list (Z * Z) := %s.' % coq_list(qlit(v) for v in find_local(fa, 'blaux_big')))
+    out.append('Definition autoaux_b_small : Z * Z := %s.' % qlit(find_local(fa, 'b_small')))
+    for var in ('lval', 'linc'):
+        init, steps = thresholds(fa, var)
+        out.append('Definition autoaux_%s_init : Z := %s.' % (var, coq_z(init)))
+        out.append('Definition autoaux_%s_steps : list (Z * Z) := %s.' % (var, coq_list('(%s, %s)' % (coq_z(t), coq_z(v)) for t, v in steps)))
+    fb = find_func(tree, 'autoabs_basis', path)
+    init, steps = thresholds(fb, 'lval')
+    out.append('Definition autoabs_lval_init : Z := %s.' % coq_z(init))
+    out.append('Definition autoabs_lval_steps : list (Z * Z) := %s.' % coq_list('(%s, %s)' % (coq_z(t), coq_z(v)) for t, v in steps))
+    nd = len(fb.args.defaults)
+    names = [a.arg for a in fb.args.args]
+    dflt = dict(zip(names[len(names) - nd:], [literal(d, path) for d in fb.args.defaults]))
+    out.append('Definition autoabs_lmaxinc_default : Z := %s.' % coq_z(dflt['lmaxinc']))
+    out.append('Definition autoabs_fsam_default : Z * Z := %s.' % qlit(dflt['fsam']))
     return '\n'.join(out) + '\n'
